@@ -579,6 +579,12 @@ def make_dir(rng, vendor, tz, n=None, names=None, elements=None, nancols=None, w
         names, _, feats = line_names(rng, vendor, n, tz)
         while _BAD_STAMP & set(feats):
             names, _, feats = line_names(rng, vendor, n, tz)
+    if vendor == "ldr" and elements is not None and nancols and len(set(nancols)) >= len(elements):
+        # LDR drops columns that are empty everywhere: at least one element keeps its data (an image without any element
+        # is outside the property)
+        if len(elements) == 1:
+            elements = list(elements) + [next(e for e in ELEMENTS if e not in elements)]
+        nancols = sorted(set(nancols))[:len(elements) - 1]
     tables, f2 = make_tables(rng, vendor, n, elements=elements, nancols=nancols)
     entries = [{"name": nm, "type": "file", "role": "line", "eol": "\n", **t} for nm, t in zip(names, tables)]
     if with_distractors and rng.random() < 0.4:
@@ -744,8 +750,9 @@ def targeted_histories():
                    ["targeted-history"])
         # an element column empty in every line, then the same element with data (and the other way round)
         if el:
-            d6, _ = make_dir(rng, v1, "UTC", n=2, elements=list(el), nancols=list(range(len(el))))
-            d7, _ = make_dir(rng, v1, "UTC", n=2, elements=list(el), nancols=[])
+            el6 = list(el) if len(el) >= 2 else list(el) + [next(e for e in ELEMENTS if e not in el)]
+            d6, _ = make_dir(rng, v1, "UTC", n=2, elements=el6, nancols=list(range(len(el6) - 1)))
+            d7, _ = make_dir(rng, v1, "UTC", n=2, elements=el6, nancols=[])
             for call in ("auto", "shared", "detected", "fresh"):
                 yield hist([step("lines", d6, call), step("b", d7, call), step("lines", None, call)],
                            ["hist:nan-element-then-data", "targeted-history"])
